@@ -14,57 +14,57 @@ import (
 // unexported pure functions (and functions of internal packages) to the
 // external verification harness; it adds no behaviour of its own.
 
-func VerifHexDigit(c byte) byte { return hexDigit(c) }
+func VerifTrHexDigit(c byte) byte { return hexDigit(c) }
 
-func VerifDecodeInt(buf []byte) (int64, error) { return decodeInt(buf) }
+func VerifTrDecodeInt(buf []byte) (int64, error) { return decodeInt(buf) }
 
-func VerifEncodeInt64(x uint64, w int) ([]byte, error) {
+func VerifTrEncodeInt64(x uint64, w int) ([]byte, error) {
 	buf := &bytes.Buffer{}
 	err := encodeInt64(buf, x, w)
 	return buf.Bytes(), err
 }
 
-func VerifStdSecPToPerm(R int, P uint32) Perm { return stdSecPToPerm(R, P) }
-func VerifStdSecPermToP(perm Perm) uint32     { return stdSecPermToP(perm) }
-func VerifPermCanR2(perm Perm) bool           { return perm.canR2() }
+func VerifTrStdSecPToPerm(R int, P uint32) Perm { return stdSecPToPerm(R, P) }
+func VerifTrStdSecPermToP(perm Perm) uint32     { return stdSecPermToP(perm) }
+func VerifTrPermCanR2(perm Perm) bool           { return perm.canR2() }
 
-func VerifUnpadPKCS7(buf []byte) ([]byte, error) { return unpadPKCS7(buf) }
+func VerifTrUnpadPKCS7(buf []byte) ([]byte, error) { return unpadPKCS7(buf) }
 
-func VerifIsSecondClassName(x Name) bool { return x.isSecondClassName() }
-func VerifIsThirdClassName(x Name) bool  { return x.isThirdClassName() }
+func VerifTrIsSecondClassName(x Name) bool { return x.isSecondClassName() }
+func VerifTrIsThirdClassName(x Name) bool  { return x.isThirdClassName() }
 
-func VerifPredictorIsValid(p FlatePredictor) bool { return p.isValid() }
-func VerifValidateFlateLZW(v Version, p FlatePredictor, colors, bpc, columns int) error {
+func VerifTrPredictorIsValid(p FlatePredictor) bool { return p.isValid() }
+func VerifTrValidateFlateLZW(v Version, p FlatePredictor, colors, bpc, columns int) error {
 	return validateFlateLZW(v, p, colors, bpc, columns)
 }
-func VerifFlateValidate(f FilterFlate, v Version) error    { return f.validate(v) }
-func VerifLZWValidate(f FilterLZW, v Version) error        { return f.validate(v) }
-func VerifCCITTValidate(f FilterCCITTFax, v Version) error { return f.validate(v) }
+func VerifTrFlateValidate(f FilterFlate, v Version) error    { return f.validate(v) }
+func VerifTrLZWValidate(f FilterLZW, v Version) error        { return f.validate(v) }
+func VerifTrCCITTValidate(f FilterCCITTFax, v Version) error { return f.validate(v) }
 
 // internal/filter/predict
 
-func VerifPaeth(a, b, c byte) byte { return predict.VerifPaeth(a, b, c) }
+func VerifTrPaeth(a, b, c byte) byte { return predict.VerifPaeth(a, b, c) }
 
-// VerifPredictParams returns Validate() and the four derived sizes.
-func VerifPredictParams(colors, bpc, columns, predictor int) (bitsPerPixel, bitsPerRow, bytesPerRow, bytesPerPixel int, err error) {
-	return predict.VerifParams(colors, bpc, columns, predictor)
+// VerifTrPredictParams returns Validate() and the four derived sizes.
+func VerifTrPredictParams(colors, bpc, columns, predictor int) (bitsPerPixel, bitsPerRow, bytesPerRow, bytesPerPixel int, err error) {
+	return predict.VerifTrParams(colors, bpc, columns, predictor)
 }
 
 // internal/limits
 
-func VerifImageDataLimit(w, h, c, b int) int64       { return limits.ImageDataLimit(w, h, c, b) }
-func VerifImageBytesExceedLimit(w, h, c, b int) bool { return limits.ImageBytesExceedLimit(w, h, c, b) }
-func VerifImagePixelsExceedLimit(w, h int) bool      { return limits.ImagePixelsExceedLimit(w, h) }
-func VerifStreamBudget(n int64) int64                { return limits.StreamBudget(n) }
-func VerifShadingBudget(n int64) int64               { return limits.ShadingBudget(n) }
-func VerifMaxXRefEntries(n int64) int64              { return limits.MaxXRefEntries(n) }
+func VerifTrImageDataLimit(w, h, c, b int) int64       { return limits.ImageDataLimit(w, h, c, b) }
+func VerifTrImageBytesExceedLimit(w, h, c, b int) bool { return limits.ImageBytesExceedLimit(w, h, c, b) }
+func VerifTrImagePixelsExceedLimit(w, h int) bool      { return limits.ImagePixelsExceedLimit(w, h) }
+func VerifTrStreamBudget(n int64) int64                { return limits.StreamBudget(n) }
+func VerifTrShadingBudget(n int64) int64               { return limits.ShadingBudget(n) }
+func VerifTrMaxXRefEntries(n int64) int64              { return limits.MaxXRefEntries(n) }
 
-func VerifTryCrop(s String, l int) String { return tryCrop(s, l) }
+func VerifTrTryCrop(s String, l int) String { return tryCrop(s, l) }
 
 // internal/filter/jbig2
 
-func VerifJBIG2WorkLimit(rawLen int64) int64 { return jbig2.VerifWorkLimit(rawLen) }
-func VerifJBIG2CheckBitmapSize(width, height int) error {
-	return jbig2.VerifCheckBitmapSize(width, height)
+func VerifTrJBIG2WorkLimit(rawLen int64) int64 { return jbig2.VerifTrWorkLimit(rawLen) }
+func VerifTrJBIG2CheckBitmapSize(width, height int) error {
+	return jbig2.VerifTrCheckBitmapSize(width, height)
 }
-func VerifJBIG2CheckedMul(a, b int) (int, error) { return jbig2.VerifCheckedMul(a, b) }
+func VerifTrJBIG2CheckedMul(a, b int) (int, error) { return jbig2.VerifTrCheckedMul(a, b) }
